@@ -50,6 +50,43 @@ func mkString(c, n, off, wk int, salt uint64) string {
 	return sb.String()
 }
 
+// c09Special: code points at the edges of the UTF-8 width classes and of the surrogate gap, and the ones text
+// handling code tends to single out (NUL, BOM, the replacement character, non-characters, line separators).
+var c09Special = []rune{0x00, 0x01, 0x09, 0x0a, 0x0d, 0x7f, 0x80, 0x85, 0xa0, 0x7ff, 0x800, 0x2028, 0x2029, 0xd7ff, 0xe000, 0xfdd0, 0xfeff, 0xfffc, 0xfffd, 0xfffe, 0xffff,
+	0x10000, 0x1fffe, 0x1ffff, 0xe0001, 0x10fffd, 0x10fffe, 0x10ffff}
+
+// mkSpecial: n characters, ASCII except for r at position pos.
+func mkSpecial(r rune, n, pos int) string {
+	var sb strings.Builder
+	for i := 0; i < n; i++ {
+		if i == pos {
+			sb.WriteRune(r)
+		} else {
+			sb.WriteByte(byte('a' + i%26))
+		}
+	}
+	return sb.String()
+}
+
+// mkScalars: n code points drawn over the whole range of Unicode scalar values (every eighth a special one).
+func mkScalars(n int, salt uint64) string {
+	var sb strings.Builder
+	x := &splitmix{s: salt*0x9e3779b97f4a7c15 + 11}
+	for i := 0; i < n; i++ {
+		v := x.next()
+		if v%8 == 0 {
+			sb.WriteRune(c09Special[(v>>8)%uint64(len(c09Special))])
+			continue
+		}
+		r := rune((v >> 8) % 0x10f800) // scalar values: skip the surrogate gap
+		if r >= 0xd800 {
+			r += 0x800
+		}
+		sb.WriteRune(r)
+	}
+	return sb.String()
+}
+
 func mkBytes(n int, salt uint64) []byte {
 	b := make([]byte, n)
 	x := salt*0x9e3779b97f4a7c15 + 1
@@ -225,6 +262,11 @@ func TestC09(t *testing.T) {
 		var msg string
 		if kind == "binary" {
 			msg = checkBinary(mkBytes(int(n), uint64(n)), c09Second(int(n)))
+		} else if kind == "special" {
+			rn, _ := caseInt(rc, "rune")
+			msg = checkString(mkSpecial(rune(rn), int(n), int(off)), string(rune(rn)))
+		} else if kind == "scalars" {
+			msg = checkString(mkScalars(int(n), uint64(n)), mkScalars(3, uint64(n)+1))
 		} else {
 			msg = checkString(mkString(int(cls), int(n), int(off), int(wk), uint64(n)), mkString(1, int(n)%5, 0, 0, 1))
 		}
@@ -283,6 +325,38 @@ func TestC09(t *testing.T) {
 		}
 	}
 	r.Label("string:wide-at-boundary")
+	// ---- special code points: alone, at either end and in the middle of short strings, and on either side of the
+	// first chunk boundary
+	for _, sp := range c09Special {
+		for _, np := range [][2]int{{1, 0}, {2, 0}, {2, 1}, {9, 4}, {33, 32}, {1025, 1023}, {strChunk, strChunk - 1}, {strChunk + 1, strChunk}, {strChunk + 2, strChunk - 1}, {strChunk + 5, 0}} {
+			if !mine() {
+				continue
+			}
+			if msg := checkString(mkSpecial(sp, np[0], np[1]), string(sp)); msg != "" {
+				directFail(t, "C09", map[string]interface{}{"kind": "special", "rune": fmt.Sprint(int(sp)), "length": fmt.Sprint(np[0]), "offset": fmt.Sprint(np[1])},
+					"C09 string of %d characters with U+%04X at position %d: %s", np[0], sp, np[1], msg)
+			}
+			r.EvalN(2)
+			nt++
+		}
+	}
+	r.Label("string:special-code-points")
+	// ---- code points drawn over the whole range of scalar values
+	for _, n := range []int{1, 2, 3, 7, 31, 32, 33, 255, 256, 1023, 1024, 1025, 4000, strChunk - 1, strChunk, strChunk + 1, 2*strChunk + 3} {
+		for rep := 0; rep < 3; rep++ {
+			if !mine() {
+				continue
+			}
+			if msg := checkString(mkScalars(n+rep*0, uint64(n)+uint64(rep)*1000003), mkScalars(3, uint64(n)+1)); msg != "" && rep == 0 {
+				directFail(t, "C09", map[string]interface{}{"kind": "scalars", "length": fmt.Sprint(n)}, "C09 string of %d code points drawn over all scalar values: %s", n, msg)
+			} else if msg != "" {
+				directFail(t, "C09", map[string]interface{}{"kind": "scalars", "length": fmt.Sprint(n), "note": "salt differs on replay"}, "C09 string of %d code points drawn over all scalar values (rep %d): %s", n, rep, msg)
+			}
+			r.EvalN(2)
+			nt++
+		}
+	}
+	r.Label("string:all-scalar-values")
 	// ---- binaries: every length
 	for _, n := range c09Lengths(binChunk, thorough) {
 		if !mine() {
